@@ -96,6 +96,10 @@ class Fault(Exception):
     pass
 
 
+class Interrupt(KeyboardInterrupt):
+    """a fault that is not an Exception (an interrupt / cancellation raised inside a callback)"""
+
+
 def run_path(c, case, variant, global_repo, allow_fault, allow_replace, fault_kind='runtime'):
     """one real load under selectors; returns a dict of observations"""
     from textx import metamodel_from_str
@@ -123,6 +127,8 @@ def run_path(c, case, variant, global_repo, allow_fault, allow_replace, fault_ki
             fired.append((i, kind))
             if fault_kind == 'textx':
                 raise TextXSemanticError('injected fault at %s #%d' % (kind, i))
+            if fault_kind == 'interrupt':
+                raise Interrupt('injected interrupt at %s #%d' % (kind, i))
             raise Fault('injected fault at %s #%d' % (kind, i))
 
     from_string = case.startswith('string-')
@@ -221,7 +227,7 @@ def run_path(c, case, variant, global_repo, allow_fault, allow_replace, fault_ki
             else:
                 model = mm.model_from_file(os.path.join(tmpd, 'main'))
             obs['outcome'] = 'ok'
-        except Fault as e:
+        except (Fault, Interrupt) as e:
             obs['outcome'] = 'fault'
         except TextXError as e:
             obs['outcome'] = 'textx-error'
